@@ -27,7 +27,7 @@ from translate import gen_rules
 PROP = 'C11'
 
 OPT_PROB = {'arg': 0.45, 'args': 0.5, 'expr_move': 0.05, 'lambda': 0.12, 'ternary': 0.15, 'comp_not': 0.15, 'unary': 0.2, 'move': 0.5, 'function': 0.8, 'param': 0.3, 'if': 0.5}
-JUNK = ['$', '?', '@', '!', '~', '^', '&', '|', ';', '`', '=', ':', ',', '.', '(', ')', '[', ']', '{', '}', '->', '...', '**', '+=', '<<', 'if', 'else', 'lambda', 'not', 'in', 'def', '\n', '\\INDENT', '\\DEDENT', '\\OP_UNARY_MINUS', 'x', '1', "'s'"]
+JUNK = ['$', '?', '@', '!', '~', '^', '&', '|', ';', '`', '=', ':', ',', '.', '(', ')', '[', ']', '{', '}', '->', '...', '**', '+=', '<<', '>>', '<=>', '!==', '0.5.1', '00', '1.', 'Falsey', 'if', 'else', 'lambda', 'not', 'in', 'def', '\n', '\\INDENT', '\\DEDENT', '\\OP_UNARY_MINUS', 'x', '1', "'s'"]
 
 
 # ---------------------------------------------------------------------------------------------
@@ -409,6 +409,12 @@ def search_cpython(ctx: Ctx) -> SearchResult:
 			res.findings.append(Finding(key=f'derivable-rejected:{reject_key(toks, world.rules)}',
 				what=f'a sentence derived from py_gram.lark is not accepted by the engine ({kind}): {text!r}', replay={'text': text, 'derivation': toks, 'outcome': kind, 'message': payload}))
 			continue
+		leaf = gramlib.bad_leaf(payload, world.grammar)
+		if leaf:
+			hist[f'{level}:LEAF'] += 1
+			res.findings.append(Finding(key=f'leaf-outside-terminal:{leaf[0]}', what=f'the engine tree has the leaf ({leaf[0]!r}, {leaf[1]!r}) that the terminal rule of py_gram.lark cannot match; text {text!r}',
+				replay={'text': text, 'leaf': list(leaf), 'tree': repr(payload)}))
+			continue
 		try:
 			want = pycanon.canon_cpython(text)
 		except SyntaxError:
@@ -419,6 +425,9 @@ def search_cpython(ctx: Ctx) -> SearchResult:
 			continue
 		try:
 			got = pycanon.canon_tranp(payload)
+		except pycanon.NotCommon:
+			hist[f'{level}:not-comparable'] += 1
+			continue
 		except pycanon.Outside as e:
 			hist[f'{level}:tranp-shape'] += 1
 			res.findings.append(Finding(key=f'tree-shape:{e}', what=f'the engine tree has a shape the grammar cannot assign ({e}): {text!r}', replay={'text': text, 'tree': repr(payload)}))
@@ -468,9 +477,23 @@ def search_mutated(ctx: Ctx) -> SearchResult:
 			continue
 		kind, payload = gramlib.real_parse(world.rules, gramlib.FixedTokenizer(tokens), text)
 		if kind == 'ok':
+			leaf = gramlib.bad_leaf(payload, world.grammar)
+			if leaf:
+				hist['accepted:LEAF'] += 1
+				res.findings.append(Finding(key=f'leaf-outside-terminal:{leaf[0]}', what=f'text outside the grammar is accepted: leaf ({leaf[0]!r}, {leaf[1]!r}) cannot be matched by its terminal rule; text {text!r}',
+					replay={'text': text, 'leaf': list(leaf), 'mutation': mk}))
+				continue
+			try:
+				got = pycanon.canon_tranp(payload)
+			except pycanon.NotCommon:
+				hist['accepted:not-comparable'] += 1
+				continue
+			except pycanon.Outside as e:
+				hist['accepted:tranp-shape'] += 1
+				res.findings.append(Finding(key=f'tree-shape:{e}', what=f'the engine tree has a shape the grammar cannot assign ({e}): {text!r}', replay={'text': text, 'tree': repr(payload), 'mutation': mk}))
+				continue
 			try:
 				want = pycanon.canon_cpython(text)
-				got = pycanon.canon_tranp(payload)
 			except (SyntaxError, pycanon.Outside):
 				hist['accepted:not-comparable'] += 1
 				continue
@@ -501,6 +524,27 @@ def search_mutated(ctx: Ctx) -> SearchResult:
 # ---------------------------------------------------------------------------------------------
 
 
+def guarded(kind: str, name: str, fn, ctx: Ctx):
+	"""Run one stream / search; an exception that escapes it (raised by the code under test at a place the harness did not expect,
+	e.g. while loading the rule modules) becomes a reported result instead of a harness crash (CONVENTIONS addendum 14)."""
+	import traceback
+	try:
+		return fn(ctx)
+	except common.InfraError:
+		raise
+	except Exception as e:  # noqa: BLE001
+		tail = ''.join(traceback.format_exception(type(e), e, e.__traceback__)[-6:])
+		if kind == 'stream':
+			st = Stream(name)
+			st.cases = 1
+			st.disagreements.append({'case': 'stream aborted', 'op': name, 'real': f'{type(e).__name__}: {e}', 'model': '(not reached)', 'traceback': tail})
+			return st
+		res = SearchResult(name)
+		res.cases = 1
+		res.findings.append(Finding(key=f'search-aborted:{type(e).__name__}', what=f'{name}: the real code raised {type(e).__name__}: {e}', replay={'search': name, 'traceback': tail}))
+		return res
+
+
 STATEMENTS = {
 	'T1_termination': 'for every rule set passing the decidable check WFRules and every token list, the matcher never runs out of the fuel fuelBound R |tokens| (so the Python recursion/loops terminate)',
 	'T1_wf_py / T1_wf_gram': 'WFRules holds for the translated py_rules() and gram_rules() (kernel-decided over the whole tables)',
@@ -523,9 +567,9 @@ def run(ctx: Ctx) -> int:
 	ok, msg = translate(ctx)
 	proof = common.prove(ctx, PROP, leanchecker=ctx.thorough)
 	with ctx.timed('correspondence'):
-		streams = [stream_engine_py(ctx), stream_engine_random(ctx), stream_summary(ctx)]
+		streams = [guarded('stream', 'engine-py', stream_engine_py, ctx), guarded('stream', 'engine-random', stream_engine_random, ctx), guarded('stream', 'engine-summary', stream_summary, ctx)]
 	with ctx.timed('search'):
-		searches = [search_cpython(ctx), search_mutated(ctx)]
+		searches = [guarded('search', 'cpython-ast', search_cpython, ctx), guarded('search', 'mutated', search_mutated, ctx)]
 	return common.finish(ctx, proof, streams, searches, translate_ok=ok, translate_msg=msg,
 		statements=STATEMENTS,
 		partial={
